@@ -134,10 +134,12 @@ inline void completeMps(std::string& s)
 // ---- exclusion protocol for known finding `mps-rational-rows-null` (the Rational MPSreadRows dereferences a
 // missing name field): walks the file with SoPlex's own tokenizer exactly as readMPS does up to the end of the
 // ROWS section and reports whether a ROWS data line has fewer than two fields. Only a filter, never a judge.
-// Precondition: `text` was completed by completeMps (the tokenizer must not reach end of file).
+// The walk runs on a copy that ends in an ENDATA line, so that the tokenizer can never reach end of file (mps-eof-hang).
 inline bool mpsRowsLineWithoutName(const std::string& text)
 {
-   std::istringstream in(text);
+   std::string copy = text;
+   if(!endsInEndata(copy)) copy += "\nENDATA\n";
+   std::istringstream in(copy);
    soplex::MPSInput mps(in);
    if(!mps.readLine() || mps.field0() == nullptr || strcmp(mps.field0(), "NAME")) return false;
    if(!mps.readLine() || mps.field0() == nullptr) return false;
@@ -246,6 +248,46 @@ struct LeakScope
 #endif
    }
 };
+// ---- exclusion protocol for known finding `lpf-long-token-overflow` (LPFreadColName, LPFhasRowName and LPFreadValue
+// copy one token into a stack buffer of SOPLEX_LPF_MAX_LINE_LEN = 8192 bytes without a bound, while the line buffer
+// they read from grows without limit): true if some piece of the text between the characters + - < > = : and newline
+// has 4000 or more non-blank characters (the reader deletes blanks before it tokenizes; a number token of 8192
+// characters has at most two inner signs, so one of its pieces has more than 4000). Over-approximates; counted.
+inline bool hasLongLpToken(const std::string& s)
+{
+   size_t run = 0;
+   for(size_t i = 0; i < s.size(); i++)
+   {
+      char c = s[i];
+      if(c == '+' || c == '-' || c == '<' || c == '>' || c == '=' || c == ':' || c == '\n') run = 0;
+      else if(c != ' ' && c != '\t' && ++run >= 4000) return true;
+   }
+   return false;
+}
+// ---- exclusion protocol for known finding `valgrind__settings-overscan` (S12: parseSettingsString / _parseSettingsLine
+// overwrite the character that ends the type or name token and step over it even when it is the terminating NUL;
+// the scan then runs through uninitialised bytes of the 500-byte stack buffer; visible to valgrind only):
+// true if the type token or the name token of the string is ended by the terminating NUL.
+inline bool settingsTokenEndsAtNul(const char* p)
+{
+   auto blank = [](char c) { return c == ' ' || c == '\t' || c == '\r'; };
+   auto stop = [](char c) { return c == ' ' || c == '\t' || c == '\r' || c == '\n' || c == '#' || c == '\0'; };
+   while(blank(*p)) p++;
+   if(*p == '\0' || *p == '\n' || *p == '#') return false;
+   while(!stop(*p) && *p != ':') p++;
+   if(*p == '\0') return true;
+   if(*p != ':')
+   {
+      p++;
+      while(blank(*p)) p++;
+      if(*p != ':') return false;
+   }
+   p++;
+   while(blank(*p)) p++;
+   if(*p == '\0' || *p == '\n' || *p == '#') return false;
+   while(!stop(*p) && *p != '=') p++;
+   return *p == '\0';
+}
 // ---- exclusion protocol for known finding `settings-nan-sigfpe` (std::stod accepts "nan"; NaN passes
 // setRealParam's range test and is assigned to a GMP rational => SIGFPE, cf. S7): true if the text contains "nan"
 // in any letter case. Over-approximates; skipped inputs are counted.
